@@ -197,6 +197,8 @@ type Ex struct {
 	depth   int
 	qdepth  int
 	letCache map[string]*T
+	visHeap  string // ghost visited-set of the function's only map range ("" if none)
+	visKey   *Sort
 }
 
 func (x *Ex) child() *Ex {
@@ -1160,6 +1162,14 @@ func (x *Ex) call(v *ast.CallExpr, want *Sort) *T {
 		argN(1)
 		a := x.tr(v.Args[0], sSlice)
 		return mk(sapp("sl_off", a.S), sI64)
+	case "visited":
+		// visited(k): the function's (only) map range has already yielded key k
+		argN(1)
+		if x.visHeap == "" {
+			fail("visited(): the function has no unique range over a map")
+		}
+		k := x.tr(v.Args[0], x.visKey)
+		return mk(sapp("select", x.state().get(x.visHeap, arrSort(x.visKey, sBool)).S, k.S), sBool)
 	case "byteStr":
 		// the one-byte string holding c
 		argN(1)
